@@ -292,6 +292,41 @@ func (w *World) prefill(c *column.Collection, p *Prefill) {
 		}
 		id++
 	}
+	w.prefillBulk(c, p)
+}
+
+// bulkValue is the deterministic, incompressible value of a bulk-filled row.
+func bulkValue(off uint32, n int) string {
+	r := NewRng(uint64(off), 777)
+	b := make([]byte, n)
+	for i := range b {
+		b[i] = byte(33 + r.Intn(90))
+	}
+	return string(b)
+}
+
+// prefillBulk stores a value in every live row of the KeepFull blocks through one
+// hand-built commit per block.
+func (w *World) prefillBulk(c *column.Collection, p *Prefill) {
+	if p == nil || p.BulkCol == "" {
+		return
+	}
+	hole := map[uint32]bool{}
+	for _, o := range p.Holes {
+		hole[o] = true
+	}
+	for _, b := range p.KeepFull {
+		buf := commit.NewBuffer(1 << 21)
+		buf.Reset(p.BulkCol)
+		for i := uint32(0); i < 1<<14; i++ {
+			if off := uint32(b)<<14 + i; !hole[off] {
+				buf.PutString(commit.Put, off, bulkValue(off, p.BulkLen))
+			}
+		}
+		if err := c.Replay(commit.Commit{ID: uint64(900 + b), Chunk: commit.Chunk(b), Updates: []*commit.Buffer{buf}}); err != nil {
+			panic(err)
+		}
+	}
 }
 
 // prefillModel mirrors prefill into the model.
@@ -315,6 +350,9 @@ func prefillModel(m *Model, p *Prefill) {
 		for i := uint32(0); i < 1<<14; i++ {
 			if off := uint32(b)<<14 + i; !hole[off] {
 				m.Rows[off] = map[string]MVal{}
+				if p.BulkCol != "" {
+					m.Rows[off][p.BulkCol] = MVal{S: bulkValue(off, p.BulkLen)}
+				}
 			}
 		}
 	}
